@@ -257,8 +257,8 @@ def message_stub(pkt):
 
 
 @harness("C19", cases=[(d,) for d in (0, 1, 3, 6, 9)],
-         stubs={F.FaultLog._process_msg: process_msg_stub, F.FaultLog._hack_pkt_idx: hack_pkt_idx_stub, F.Command.get_system_log_entry.__func__: log_entry_cmd_stub},
-         subst={F.Message: message_stub})
+         stubs={F.FaultLog._process_msg: process_msg_stub, F.FaultLog._hack_pkt_idx: hack_pkt_idx_stub, F.Command.get_system_log_entry.__func__: log_entry_cmd_stub,
+                F.Message: message_stub})
 def read_through_asks_the_controller(depth):
     """get_faultlog reads the log from the top, whatever it believed before (also when it believes
     it is current): it asks for position 0, 1, ... until the first null entry (or its limit),
